@@ -292,7 +292,7 @@ class C08(Check):
                   'split_mapping_by_keys', 'find_offsets')
         self.unit('spowtd.regrid', 'regrid')
         inc = [(3, 3)] if quick else [(3, 3), (4, 3), (3, 4), (4, 4)]
-        shapes = [(2, 2), (2, 2, 2), (3, 2)] if quick else [(2, 2), (2, 2, 2), (3, 2), (3, 2, 2)]
+        shapes = [(2, 2), (2, 2, 2), (3, 2), (3, 3)] if quick else [(2, 2), (2, 2, 2), (3, 2), (3, 3), (3, 2, 2)]
         vals = VALUE_SETS['quick'] if quick else VALUE_SETS['thorough']
         steps = [Fraction(1)] if quick else [Fraction(1), Fraction(1, 2)]
         self.bounds = {'incidence (series x levels), every pattern and level order': inc,
@@ -309,7 +309,7 @@ class C08(Check):
             self.absorb(exp, need_paths=2)
         for step in steps:
             for sh in shapes:
-                vs = vals if len(sh) <= 2 or not quick else vals[:3]
+                vs = vals if (len(sh) <= 2 and sum(sh) <= 5) or not quick else vals[:3]
                 if not quick and sum(sh) >= 6:
                     vs = vals[1:4] if sum(sh) >= 7 else vals[1:5]
                 exp = symx.explore(harness_invariance,
